@@ -21,17 +21,22 @@ import (
 // C14Case is one (object, datum, operation); with the two tapes it is also the
 // replay document of a C14 violation.
 type C14Case struct {
-	Obj    ObjSpec   `json:"obj"`
-	Datum  DatumSpec `json:"datum"`
-	Op     string    `json:"op"` // eval | exec
-	Family string    `json:"family"`
+	Obj     ObjSpec    `json:"obj"`
+	Datum   DatumSpec  `json:"datum"`
+	Prelude *DatumSpec `json:"prelude,omitempty"` // evaluated once on the fresh object before every explored order
+	Op      string     `json:"op"`                // eval | exec
+	Family  string     `json:"family"`
 }
 
 func (c C14Case) hash() uint64 {
-	return hashBytes([]byte(c.Obj.Kind + "\x00" + c.Obj.Expr + "\x00" + c.Obj.Opts.Hook + c.Obj.Opts.Unknown + c.Obj.Opts.Tag + "\x00" + c.Datum.String() + c.Op))
+	pre := ""
+	if c.Prelude != nil {
+		pre = c.Prelude.String()
+	}
+	return hashBytes([]byte(c.Obj.Kind + "\x00" + c.Obj.Expr + "\x00" + c.Obj.Opts.Hook + c.Obj.Opts.Unknown + c.Obj.Opts.Tag + "\x00" + c.Datum.String() + c.Op + pre))
 }
 
-var mixedFamilyNames = []string{"eq", "path", "in", "re", "poison", "nested", "tslice", "tptr", "filter", "tfilter"}
+var mixedFamilyNames = []string{"eq", "path", "in", "re", "poison", "nested", "tslice", "tptr", "filter", "tfilter", "eq", "path", "ieq", "neq"}
 
 func genClasses(r *plan.Rand) string {
 	n := r.Range(2, 8)
@@ -57,6 +62,14 @@ func GenC14Case(seed uint64, idx int) C14Case {
 		fam := mixedFamilyNames[r.Intn(len(mixedFamilyNames))]
 		classes := genClasses(r)
 		c := C14Case{Family: "mixed:" + fam, Datum: DatumSpec{Gen: "mixed:" + fam + ":" + classes, Seed: 1}}
+		if r.Chance(0.35) {
+			// a used object: it has already seen a map of the same size whose key set differs in one name
+			b := []byte(classes)
+			for i := range b {
+				b[i] = "TFE"[r.Intn(3)]
+			}
+			c.Prelude = &DatumSpec{Gen: "mixed:" + fam + ":" + string(b) + ":alt", Seed: 1}
+		}
 		body := MixedFamilies[fam]
 		if fam == "filter" || fam == "tfilter" {
 			c.Op = "exec"
@@ -110,10 +123,13 @@ func GenC14Case(seed uint64, idx int) C14Case {
 		}
 		return C14Case{Family: "generic-filter", Op: "exec", Datum: d, Obj: ObjSpec{Kind: "filter", Expr: g.Gen(elem, 1, 2)}}
 	}
-	kind := []string{"json", "tmap:any", "tmap:ptr", "tmap:slice", "tmap:map", "tmap:int", "tmap:inner", "doc", "jsonnum"}[r.Intn(9)]
+	kind := []string{"json", "tmap:any", "tmap:ptr", "tmap:slice", "tmap:map", "tmap:int", "tmap:inner", "doc", "jsonnum", "tmap:ikey", "tmap:nkey"}[r.Intn(11)]
 	d := DatumSpec{Gen: kind, Seed: r.Uint64() % 100000}
 	root := Build(d)
 	c := C14Case{Family: "generic-quantifier", Op: "eval", Datum: d, Obj: ObjSpec{Kind: "evaluator", Expr: g.GenQuantified(root, 2)}}
+	if r.Chance(0.25) {
+		c.Prelude = &DatumSpec{Gen: kind, Seed: r.Uint64() % 100000}
+	}
 	if r.Chance(0.2) {
 		c.Obj.Opts.Unknown = []string{"str:", "int:0", "nil"}[r.Intn(3)]
 	}
@@ -142,6 +158,28 @@ func runOrder(obj *Object, datum interface{}, op string, tape []uint64) orderRun
 	}
 	verifsim.EndOp()
 	return orderRun{Out: out, Decisions: ctx.Decisions, N: ctx.NDecisions, Steps: ctx.Steps}
+}
+
+// caseRunner executes the case's operation under an order tape. Without a
+// prelude one object and one datum serve every order (repeating a call); with a
+// prelude every order gets a fresh object that first sees the prelude datum.
+type caseRunner struct {
+	c     C14Case
+	obj   *Object
+	datum interface{}
+}
+
+func newCaseRunner(c C14Case) *caseRunner {
+	return &caseRunner{c: c, obj: NewObject(c.Obj), datum: Build(c.Datum)}
+}
+
+func (cr *caseRunner) run(tape []uint64) orderRun {
+	obj := cr.obj
+	if cr.c.Prelude != nil {
+		obj = NewObject(cr.c.Obj)
+		runOrder(obj, Build(*cr.c.Prelude), cr.c.Op, nil)
+	}
+	return runOrder(obj, cr.datum, cr.c.Op, tape)
 }
 
 // C14Result is the per-case record.
@@ -312,9 +350,9 @@ func RunC14Case(c C14Case, seed uint64, tier string) C14Result {
 	verifsim.Reset()
 	verifsim.BeginMain()
 	verifsim.SetOrderSeam(true)
-	obj := NewObject(c.Obj)
-	datum := Build(c.Datum)
-	base := runOrder(obj, datum, c.Op, nil)
+	cr := newCaseRunner(c)
+	obj, datum := cr.obj, cr.datum
+	base := cr.run(nil)
 	res.Base = base.Out.String()
 	res.Orders = 1
 	res.Decisions = base.N
@@ -329,7 +367,7 @@ func RunC14Case(c C14Case, seed uint64, tier string) C14Result {
 
 	r := plan.New(plan.Mix(seed, c.hash()))
 	try := func(tape []uint64) bool {
-		run := runOrder(obj, datum, c.Op, tape)
+		run := cr.run(tape)
 		res.Orders++
 		if run.Steps != base.Steps {
 			res.PathSens = true
@@ -377,21 +415,25 @@ func RunC14Case(c C14Case, seed uint64, tier string) C14Result {
 		}
 	}
 	// exhaustive depth-first enumeration of the decision tree when it is small
+	maxLeaves := uint64(5040)
+	if c.Prelude != nil {
+		maxLeaves = 120 // every order costs a fresh object and a prelude call
+	}
 	leaves := uint64(1)
 	for _, d := range base.Decisions {
 		f := verifsim.Factorial(d.N)
-		if leaves > 5040/f {
-			leaves = 5041
+		if leaves > maxLeaves/f {
+			leaves = maxLeaves + 1
 			break
 		}
 		leaves *= f
 	}
-	if leaves <= 5040 && base.N <= len(base.Decisions) {
+	if leaves <= maxLeaves && base.N <= len(base.Decisions) {
 		res.Exhaustive = true
 		tape := []uint64{}
 		count := 0
 		for {
-			run := runOrder(obj, datum, c.Op, tape)
+			run := cr.run(tape)
 			res.Orders++
 			count++
 			if run.Steps != base.Steps {
@@ -560,10 +602,9 @@ func replayC14(cfg WorkerCfg) int {
 	verifsim.Reset()
 	verifsim.BeginMain()
 	verifsim.SetOrderSeam(true)
-	obj := NewObject(doc.Case.Obj)
-	datum := Build(doc.Case.Datum)
-	a := runOrder(obj, datum, doc.Case.Op, doc.Diff.TapeA)
-	bb := runOrder(obj, datum, doc.Case.Op, doc.Diff.TapeB)
+	cr := newCaseRunner(doc.Case)
+	a := cr.run(doc.Diff.TapeA)
+	bb := cr.run(doc.Diff.TapeB)
 	cfg.Emit(map[string]interface{}{"type": "replay", "reproduced": !sameC14(a.Out, bb.Out), "outcome_a": a.Out, "outcome_b": bb.Out,
 		"decisions_a": a.Decisions, "decisions_b": bb.Decisions})
 	return 0
@@ -576,6 +617,14 @@ func probeCase(c C14Case, r int) *C14Diff {
 	datum := Build(c.Datum)
 	var first Outcome
 	for i := 0; i < r; i++ {
+		if c.Prelude != nil {
+			obj = NewObject(c.Obj)
+			if c.Op == "exec" {
+				obj.Execute(Build(*c.Prelude))
+			} else {
+				obj.Evaluate(Build(*c.Prelude))
+			}
+		}
 		var out Outcome
 		if c.Op == "exec" {
 			out = obj.Execute(datum)
